@@ -182,13 +182,20 @@ Fixpoint insert_comp (c : completion) (l : list completion) : list completion :=
 (* stable insertion sort (sort_by is stable) *)
 Definition sort_comps (l : list completion) : list completion := fold_right insert_comp [] l.
 
-Definition entry := (str * bool)%type.     (* name, is_dir (following symlinks) *)
+(** what a directory entry is. complete_path asks [entry.path().is_dir()], i.e. Path::is_dir,
+    which FOLLOWS symbolic links (stat, not lstat): a link to a directory counts as a directory,
+    a link to a file or a dangling link does not. *)
+Inductive ekind := EDir | EFile | ELinkDir | ELinkFile | ELinkDangling.
+Definition kind_is_dir (k : ekind) : bool :=
+  match k with EDir | ELinkDir => true | EFile | ELinkFile | ELinkDangling => false end.
+Definition entry := (str * ekind)%type.     (* name, kind *)
+Definition entry_is_dir (e : entry) : bool := kind_is_dir (snd e).
 
 Definition last_token (toks : list token) : tag * str :=
   match rev toks with t :: _ => t | [] => (TNone, []) end.
 
 (* the text offered for one directory entry *)
-Definition comp_of (dir_orig : str) (path_sep : tag) (is_env : bool) (e : entry) : completion :=
+Definition comp_of (dir_orig : str) (path_sep : tag) (is_env : bool) (e : str * bool) : completion :=
   let '(nm, is_dir) := e in
   let name0 := if is_empty dir_orig then nm else dir_orig ++ c_slash :: nm in
   let display := if is_empty dir_orig then None else Some nm in
@@ -218,8 +225,9 @@ Section Oracles.
       match fs dir_lookup with
       | None => COk []
       | Some entries =>
-        COk (sort_comps (map (comp_of dir_orig path_sep is_env)
-              (filter (fun e => (negb for_dir || snd e) && starts_with (fst e) file_name) entries)))
+        (* is_dir = pathbuf.is_dir() : through the link *)
+        COk (sort_comps (map (fun e => comp_of dir_orig path_sep is_env (fst e, entry_is_dir e))
+              (filter (fun e => (negb for_dir || entry_is_dir e) && starts_with (fst e) file_name) entries)))
       end
     end.
 
